@@ -20,6 +20,9 @@ type c06X struct {
 	MailOK      bool   // reference: MAIL must be accepted
 	Expect      []string
 	Pre         int
+	Prelude     int // an earlier transaction on the same connection: 0 none, 1 BDAT completed within the limit, 2 a chunk then RSET, 3 BDAT refused for its size, 4 DATA completed within the limit
+	MailIdx     int // index of the reply to the judged MAIL
+	DataIdx     int // index of the judged message among the backend\'s Data calls
 	NFinal      int
 }
 
@@ -113,9 +116,50 @@ func genC06(t *Tape, tier string) *Scenario {
 	if x.SizeKind != 0 {
 		mail += " SIZE=" + x.SizeArg
 	}
-	steps := []Step{{Kind: kGreetWait, Wait: 1}, {Kind: kHelo, Data: heloLine(sc.Srv), Wait: 1},
-		{Kind: kMail, Data: []byte(mail + "\r\n"), Wait: 1}}
-	x.Pre = 3
+	steps := []Step{{Kind: kGreetWait, Wait: 1}, {Kind: kHelo, Data: heloLine(sc.Srv), Wait: 1}}
+	x.Pre = 2
+	// an earlier transaction on the same connection: the octets it transferred count
+	// for nothing in the one that is judged
+	x.Prelude = t.Named("c06prelude", 5)
+	if x.Prelude > 0 {
+		s1 := 1 + t.Intn(minInt(x.N, 60)) // (one line: stays below every line limit in use)
+		early := bytes.Repeat([]byte("P"), s1)
+		if s1 >= 2 {
+			early[s1-2], early[s1-1] = '\r', '\n'
+		}
+		steps = append(steps, Step{Kind: kMail, Data: line("MAIL FROM:<ok-early@a.example>"), Wait: 1},
+			Step{Kind: kRcpt, Data: line("RCPT TO:<ok-r@b.example>"), Wait: 1})
+		x.Pre += 2
+		switch x.Prelude {
+		case 1:
+			steps = append(steps, Step{Kind: kBdat, Data: line("BDAT %d LAST", s1), Glue: true, Last: true}, Step{Kind: kPayload, Data: early, Wait: -1})
+			x.Pre++
+			x.DataIdx = 1
+		case 2:
+			steps = append(steps, Step{Kind: kBdat, Data: line("BDAT %d", s1), Glue: true}, Step{Kind: kPayload, Data: early, Wait: 1},
+				Step{Kind: kRset, Data: []byte("RSET\r\n"), Wait: 1})
+			x.Pre += 2
+			x.DataIdx = 1
+		case 3:
+			big := bytes.Repeat([]byte("Q"), x.N+3)
+			steps = append(steps, Step{Kind: kBdat, Data: line("BDAT %d LAST", x.N+3), Glue: true}, Step{Kind: kPayload, Data: big, Wait: 1})
+			x.Pre++
+		default:
+			body := append(append([]byte{}, early...), '\r', '\n', '.', '\r', '\n')
+			if s1 >= 2 {
+				body = append(append([]byte{}, early...), '.', '\r', '\n')
+			}
+			steps = append(steps, Step{Kind: kData, Data: []byte("DATA\r\n"), Wait: 1}, Step{Kind: kBody, Data: body, Need: 354, Wait: -1})
+			x.Pre += 2
+			x.DataIdx = 1
+		}
+		if x.DataIdx == 1 {
+			sc.BE.Conns[0].Data = append([]DataPlan{{}}, sc.BE.Conns[0].Data...)
+		}
+	}
+	x.MailIdx = x.Pre
+	steps = append(steps, Step{Kind: kMail, Data: []byte(mail + "\r\n"), Wait: 1})
+	x.Pre++
 	x.NFinal = 1
 	if x.MailOK {
 		steps = append(steps, Step{Kind: kRcpt, Data: line("RCPT TO:<ok-r@b.example>"), Wait: 1})
@@ -177,7 +221,7 @@ func checkC06(sc *Scenario, h *History) []Violation {
 	var out []Violation
 	x := sc.X.(*c06X)
 	ch := h.Conns[0]
-	wit := fmt.Sprintf("N=%d size=%d bdat=%v chunks=%v sizearg=%q lmtp=%v", x.N, x.Size, x.ViaBdat, x.Chunks, x.SizeArg, sc.Srv.LMTP)
+	wit := fmt.Sprintf("N=%d size=%d bdat=%v chunks=%v sizearg=%q lmtp=%v prelude=%d", x.N, x.Size, x.ViaBdat, x.Chunks, x.SizeArg, sc.Srv.LMTP, x.Prelude)
 	replies, _ := parseReplies(ch.Recv)
 	var codes []string
 	for _, r := range replies {
@@ -185,8 +229,8 @@ func checkC06(sc *Scenario, h *History) []Violation {
 	}
 	// (3) SIZE parameter
 	mails := eventsOf(h, 0, "Mail")
-	if len(replies) > 2 {
-		mr := replies[2]
+	if len(replies) > x.MailIdx {
+		mr := replies[x.MailIdx]
 		switch {
 		case x.SizeKind >= 3 && x.SizeKind <= 5:
 			for _, m := range mails {
@@ -236,7 +280,7 @@ func checkC06(sc *Scenario, h *History) []Violation {
 		return out
 	}
 	evs := dataEvents(h, 0)
-	if len(evs) == 0 {
+	if len(evs) <= x.DataIdx {
 		if x.ViaBdat {
 			// no Data call is due if not a single octet was accepted before the
 			// transfer was refused (empty chunks hand nothing over)
@@ -257,7 +301,7 @@ func checkC06(sc *Scenario, h *History) []Violation {
 		out = append(out, Violation{Rule: "C06.data-calls", Detail: "Data was never called", Witness: wit})
 		return out
 	}
-	ev := evs[0]
+	ev := evs[x.DataIdx]
 	// (1) never more than N octets
 	if len(ev.Read) > x.N {
 		out = append(out, Violation{Rule: "C06.bound", Detail: fmt.Sprintf("backend read %d octets with a limit of %d", len(ev.Read), x.N), Witness: wit})
@@ -295,7 +339,10 @@ func classifyC06(sc *Scenario, h *History, st *Stats) string {
 	if x.SizeKind != 0 {
 		st.Probes["size_parameter"]++
 	}
-	return fmt.Sprintf("%d|%d|%v|%v|%d|%v|%v", x.N, x.Size, x.ViaBdat, x.Chunks, x.SizeKind, sc.Srv.LMTP, clipInts(sc.BE.Conns[0].Data[0].ReadSizes, 3))
+	if x.Prelude > 0 {
+		st.Probes["earlier_transaction_"+[]string{"", "BDAT_completed", "chunk_then_RSET", "BDAT_refused_for_size", "DATA_completed"}[x.Prelude]]++
+	}
+	return fmt.Sprintf("%d|%d|%v|%v|%d|%v|%v", x.N, x.Size, x.ViaBdat, x.Chunks, x.SizeKind, sc.Srv.LMTP, clipInts(sc.BE.Conns[0].Data[len(sc.BE.Conns[0].Data)-1].ReadSizes, 3)) + fmt.Sprint(x.Prelude)
 }
 
 func init() {
@@ -306,7 +353,7 @@ func init() {
 		Check:    checkC06,
 		Classify: classifyC06,
 		Sweep: func(tier string) []map[string]int {
-			reps := 2
+			reps := 5
 			if tier == "thorough" {
 				reps = 60
 			}
@@ -315,7 +362,7 @@ func init() {
 				for n := 0; n <= 16; n++ {
 					for s := 0; s < 6; s++ {
 						for f := 0; f < 5; f++ {
-							out = append(out, map[string]int{"c06n": n, "c06size": s, "c06form": f})
+							out = append(out, map[string]int{"c06n": n, "c06size": s, "c06form": f, "c06prelude": r % 5})
 						}
 					}
 				}
@@ -325,7 +372,7 @@ func init() {
 		Real:        []string{"smtp.Server.Serve/handleConn", "smtp.Conn handleMail SIZE check, handleData, handleBdat", "dataReader budget", "io.Pipe", "net/textproto", "bufio"},
 		Stub:        []string{"net.Listener (SimListener)", "net.Conn (SimConn)", "Backend/Session (SimBackend; returns the reader's error like io.ReadAll-based backends)", "clock (synctest)", "SMTP client (raw driver)"},
 		Assumptions: []string{"message size is judged on messages without dot-stuffing, where wire size and backend size coincide", "the backend propagates a reader error as its verdict"},
-		Required:    []string{"size_N+0", "size_N+1", "size_N-1", "size_far_above", "via_bdat", "via_data", "size_parameter"},
+		Required:    []string{"size_N+0", "size_N+1", "size_N-1", "size_far_above", "via_bdat", "via_data", "size_parameter", "earlier_transaction_BDAT_completed", "earlier_transaction_chunk_then_RSET", "earlier_transaction_BDAT_refused_for_size", "earlier_transaction_DATA_completed"},
 		QuickRuns:   200000, ThoroughRuns: 4000000,
 	})
 }
